@@ -212,17 +212,22 @@ func intBounds(t reflect.Type) (lo, hi string, ok bool) {
 	return "", "", false
 }
 
-// mutate walks type and document in parallel and produces all single-point mutants.
+const maxMutants = 1500
+
+// mutate walks type and document in parallel and produces the single-point mutants (at most maxMutants).
 func mutate(t reflect.Type, root any) []mutant {
 	var out []mutant
 	emit := func(class string, kt reflect.Type, depth int, reject bool, nullable bool) {
+		if len(out) >= maxMutants {
+			return // bounded: every mutant is a full rendering of the document
+		}
 		var buf bytes.Buffer
 		render(root, &buf)
 		out = append(out, mutant{text: buf.String(), class: class, kind: kt.Kind().String(), nullable: nullable, depth: depth, reject: reject})
 	}
 	var walk func(t reflect.Type, get func() any, set func(any), depth int)
 	walk = func(t reflect.Type, get func() any, set func(any), depth int) {
-		if depth > 12 {
+		if depth > 12 || len(out) >= maxMutants {
 			return
 		}
 		orig := get()
@@ -356,6 +361,15 @@ func (c09) Run(c *fw.Case) {
 	d0, err := json.Marshal(p.Interface())
 	if err != nil {
 		return
+	}
+	if len(d0) > 6000 {
+		// keep documents small (every mutant is a full copy): fall back to the sparse value of the same type
+		p = reflect.New(t)
+		gen.Fill(r, p.Elem(), gen.VMin, 0)
+		if d0, err = json.Marshal(p.Interface()); err != nil || len(d0) > 6000 {
+			c.Count("types_skipped_document_too_large", 1)
+			return
+		}
 	}
 	root, err := jsonorder.Decode(d0)
 	if err != nil {
